@@ -98,6 +98,10 @@ def draw_site_workload(ctx):
             v['pmax'] = rng.randint(v['pmin'], n2)
             v['skew'] = rng.choice([None, 0.2, 0.5, 1.0, 2.0, 5.0, 50.0, 3.3, 0.0001, 0.003, 5000.0, 100000.0])
             v['numinst'] = 1
+            if rng.random() < 0.25:
+                txt, val = rng.choice([('1e3', 1000.0), ('2.5e1', 25.0), ('5e-2', 0.05), ('1E2', 100.0), ('1e-05', 1e-05), ('3.0e0', 3.0)])
+                v['skew'], v['skew_text'] = val, txt
+                ctx.cov('skew_in_exponent_notation')
             outdir = ge.fresh_outdir(ctx.workdir, 'c17')
             argv = ge.to_argv(v, outdir, rng)
             CHOICE.start()
